@@ -4,6 +4,8 @@ name -> fn registry used by the native replay binary, and the #[kani::proof]
 wrappers. Run after changing the inventory; the output is committed."""
 STUBS = '''#[kani::stub(std::collections::VecDeque::push_back, crate::stubs::vd_push_back)]
         #[kani::stub(std::collections::VecDeque::pop_front, crate::stubs::vd_pop_front)]'''
+STUBS_C18 = '''#[kani::stub(std::collections::VecDeque::push_back, crate::stubs_c18::vd_push_back)]
+        #[kani::stub(std::collections::VecDeque::pop_front, crate::stubs_c18::vd_pop_front)]'''
 H = []  # (cfg, name, unwind, stubs, body)
 
 def cfgattr(cfg):
@@ -24,6 +26,9 @@ add('n4', 'rank_fwd_n4', 10, 'crate::build::h_rank_slots(N, true)', True)
 add('n3', 'rankv_n3', 11, 'crate::build::h_rank(N)', True)
 add('n2', 'rankv_n2', 6, 'crate::build::h_rank(N)', True)
 add('n3', 'rankv_fwd_n3', 11, 'crate::build::h_rank_slots(N, true)', True)
+# C18 with the oracle inside the queue stub (asserted at the violating pop): a smaller unwind bound suffices
+add('n3', 'rankc_fwd_n3', 8, 'crate::build::h_rank_slots(N, true)', 'c18')
+add('n3', 'rankc_n3', 8, 'crate::build::h_rank(N)', 'c18')
 add('n5', 'rank_fwd_n5', 18, 'crate::build::h_rank_slots(N, true)', True)
 for n in (2, 3):
     add('n%d' % n, 'builder_n%d' % n, 8, 'crate::build::h_builder(N)', True)
@@ -90,7 +95,9 @@ for cfg, name, uw, stubs, body in H:
 out += ['        _ => return false,', '    }', '    true', '}', '', '#[cfg(kani)]', 'mod proofs {']
 for cfg, name, uw, stubs, body in H:
     out += ['    ' + cfgattr(cfg), '    #[kani::proof]', '    #[kani::unwind(%d)]' % uw]
-    if stubs:
+    if stubs == 'c18':
+        out += ['    ' + STUBS_C18.replace('\n        ', '\n    ')]
+    elif stubs:
         out += ['    ' + STUBS.replace('\n        ', '\n    ')]
     out += ['    fn %s() {' % name, '        super::%s()' % name, '    }', '']
 out += ['}', '']
@@ -100,13 +107,13 @@ import json
 COMMON = ['exec.rs', 'graphs.rs', 'nd.rs', 'shapes.rs']
 
 
-def deps(body):
+def deps(body, stubs=False):
     mod = body.split('::')[1]
     d = COMMON + [mod + '.rs']
     if mod == 'stream_int':
         d.append('stream.rs')
     if mod == 'build':
-        d.append('stubs.rs')
+        d.append('stubs_c18.rs' if stubs == 'c18' else 'stubs.rs')
     return sorted(set(d))
 
 
@@ -115,5 +122,5 @@ def models(body):
     return ['daggy', 'smallvec'] if body.split('::')[1] == 'build' else ['daggy', 'tokio']
 
 
-json.dump([{'name': n, 'features': c, 'unwind': u, 'stubs': s, 'body': b, 'deps': deps(b), 'models': models(b)} for c, n, u, s, b in H], open('/verif/harness/harnesses.json', 'w'), indent=0)
+json.dump([{'name': n, 'features': c, 'unwind': u, 'stubs': s, 'body': b, 'deps': deps(b, s), 'models': models(b)} for c, n, u, s, b in H], open('/verif/harness/harnesses.json', 'w'), indent=0)
 print(len(H), 'harnesses')
